@@ -74,6 +74,7 @@ def main():
     ap.add_argument("--benign", action="store_true", help="behaviour-preserving rewrites (mutgen -benign): anything a check reports is a false alarm")
     ap.add_argument("--allprops", action="store_true", help="run every property on every mutant (not only those anchored in the mutated file)")
     ap.add_argument("--from", dest="prev", default="", help="re-run only the survivors of an earlier sweep")
+    ap.add_argument("--kinds", default="", help="comma-separated substrings: keep only mutants whose kind contains one of them")
     a = ap.parse_args()
     fp = file_props()
     files = [f for f in (a.files.split(",") if a.files else sorted(fp)) if f]
@@ -92,6 +93,9 @@ def main():
         r = subprocess.run([MUTGEN] + (["-benign"] if a.benign else []) + [f], cwd=REPO, capture_output=True, text=True)
         for m in (json.loads(r.stdout) or []):
             muts.append(m)
+    if a.kinds:
+        ks = [k for k in a.kinds.split(",") if k]
+        muts = [m for m in muts if any(k in m["kind"] for k in ks)]
     if a.limit:
         muts = muts[:a.limit]
     print(f"{len(muts)} mutants over {len(files)} files; properties {','.join(allprops)}", flush=True)
